@@ -108,6 +108,19 @@ pub fn spec(id: &str) -> Option<Spec> {
             total: Box::new(c17::total),
             generate: Box::new(c17::gen_case),
         }),
+        "C01" => Some(Spec {
+            id: "C01",
+            level: "exploration",
+            rule: "Stream-facing slice of totality. (a) 504 deep-nesting peers: 9 shapes (flow / block sequences, flow mappings, mixed, anchored and replayed twice, as mapping key, newtype-variant chain, recursive struct chain, tagged) x depths {1,64,500,1000,1500,1990,1999,2000,2001,2010,3000,10^4,4*10^4,10^5} x 4 recursive targets, default budget, on worker threads with exactly 8 MiB of stack. (b) Seeded cases: a generated document / stream / token soup / corpus entry / deep or wide peer / UTF-16 re-encoding, 0..3 channel corruptions (bit flip, byte drop, chunk duplication, adjacent-chunk swap, truncation, insertion from the indicator alphabet and of invalid UTF-8), delivered under a swarmed chunk schedule with 0..2 read faults (incl. Interrupted, by read index or byte), optionally one non-sticky EOF, swarmed options incl. tight budgets and alias limits, into 23 target types, through every entry point: from_slice, from_slice_multiple, from_str, from_multiple, with_deserializer_from_slice, from_reader, with_deserializer_from_reader (closures that deserialize, ignore the deserializer, or skip), read, read_with_options (also abandoned after one item), and the garde / validator variants. Oracle: no unwind out of the library, no process abort (supervisor), bounded steps (SimReader post-end poll bound, hook H1, iterator item bound = input length + 8), every returned error renders with every renderer without panicking. One evaluation = one entry-point call. Non-trivial and distinct = distinct reader request-trace digests.".into(),
+            assumptions: vec![
+                "exhaustive enumeration of short token strings for the in-memory entry points is bounded enumeration of a pure function and is not done here (DESIGN.md §3 C01)".into(),
+                "the stack clause is tied to the default budget by the statement: inputs larger than 4000 bytes always run with a budget".into(),
+                "a reader that returns Interrupted for ever is retried for ever by std's contract; Interrupted faults are transient".into(),
+            ],
+            components: components(),
+            total: Box::new(c01::total),
+            generate: Box::new(c01::gen_case),
+        }),
         _ => None,
     }
 }
@@ -122,6 +135,7 @@ pub fn exec(case: &Case, st: &mut Stats) -> Vec<Viol> {
         Case::C07(c) => c07::exec(c, st),
         Case::C15(c) => c15::exec(c, st),
         Case::C17(c) => c17::exec(c, st),
+        Case::C01(c) => c01::exec(c, st),
     }
 }
 
@@ -135,5 +149,6 @@ pub fn shrink_candidates(case: &Case) -> Vec<Case> {
         Case::C07(c) => c07::shrink(c),
         Case::C15(c) => c15::shrink(c),
         Case::C17(c) => c17::shrink(c),
+        Case::C01(c) => c01::shrink(c),
     }
 }
